@@ -501,7 +501,21 @@ func TestC12_Confinement(t *testing.T) {
 		case "refresh":
 			// obtain a grant with everything registered, then shrink the registration and refresh
 			q := url.Values{"client_id": {"c12"}, "response_type": {"code"}, "redirect_uri": {"https://rp.example/cb"}, "state": {"state-12345678"}, "scope": {strings.Join(exactRequestable(strategy, regScopes), " ")}}
-			ar := w.Authorize(q, h.Consent{})
+			// the grant may carry an audience: asked for by the client, or a default the consent step adds on its own
+			var grantedAud []h.AudURL
+			consent := h.Consent{}
+			if len(regAud) > 0 {
+				switch rapid.IntRange(0, 2).Draw(rt, "grantAudience") {
+				case 1:
+					grantedAud = regAud[:1]
+					q.Set("audience", regAud[0].String())
+				case 2:
+					grantedAud = regAud[:1]
+					consent.ExtraAudience = []string{regAud[0].String()}
+					h.Label("B/refresh/default-audience-granted-by-consent")
+				}
+			}
+			ar := w.Authorize(q, consent)
 			if ar.Code == "" {
 				break
 			}
@@ -510,15 +524,25 @@ func TestC12_Confinement(t *testing.T) {
 				break
 			}
 			granted := strings.Fields(tr.Scope)
-			// drop one registered scope
-			if len(cl.Scopes) > 0 {
-				i := rapid.IntRange(0, len(cl.Scopes)-1).Draw(rt, "drop")
-				narrowed := append(append([]string{}, cl.Scopes[:i]...), cl.Scopes[i+1:]...)
+			// drop one registered scope and / or the registered audiences the grant relies on
+			newRegAud := regAud
+			dropAud := len(grantedAud) > 0 && rapid.Bool().Draw(rt, "dropAudience")
+			if dropAud {
+				newRegAud = regAud[1:]
+				h.Label("B/refresh/audience-deregistered")
+			}
+			if len(cl.Scopes) > 0 || dropAud {
+				narrowed := cl.Scopes
+				if len(cl.Scopes) > 0 && (!dropAud || rapid.Bool().Draw(rt, "dropScopeToo")) {
+					i := rapid.IntRange(0, len(cl.Scopes)-1).Draw(rt, "drop")
+					narrowed = append(append([]string{}, cl.Scopes[:i]...), cl.Scopes[i+1:]...)
+				}
 				if rapid.Bool().Draw(rt, "replaceRecord") {
 					// the administrator's update stores a NEW registration record; requests persisted earlier
 					// still point to the old object
 					dc := *cl.DefaultClient
 					dc.Scopes = narrowed
+					dc.Audience = audStrings(newRegAud)
 					oc := *cl.DefaultOpenIDConnectClient
 					oc.DefaultClient = &dc
 					ncl := &h.HClient{DefaultOpenIDConnectClient: &oc}
@@ -526,6 +550,7 @@ func TestC12_Confinement(t *testing.T) {
 					cl = ncl
 				} else {
 					cl.Scopes = narrowed
+					cl.Audience = audStrings(newRegAud)
 				}
 			}
 			scopeCov = h.Yes
@@ -543,7 +568,25 @@ func TestC12_Confinement(t *testing.T) {
 					nCovered++
 				}
 			}
+			// is every granted audience still covered by the registration as it is now?
 			audCov = h.Yes
+			if len(grantedAud) > 0 {
+				if audExact {
+					for _, a := range grantedAud {
+						found := false
+						for _, r := range newRegAud {
+							if r.String() == a.String() {
+								found = true
+							}
+						}
+						if !found {
+							audCov = h.No
+						}
+					}
+				} else {
+					audCov = h.RefAudience(newRegAud, grantedAud)
+				}
+			}
 			reqScopes = granted
 			f := url.Values{"grant_type": {"refresh_token"}, "refresh_token": {tr.Refresh}}
 			for k, v := range form { // smuggled scope/audience must not matter
